@@ -941,24 +941,20 @@ pub mod simfs {
     /// payload of the unwinding that stands for the death of the process at a crash point
     pub struct CrashRequest;
 
-    /// registration of a handle that is open for writing (see `World::open_writers`)
-    struct Writer(String);
+    /// a handle open for writing holds its inode (see `world::Inodes`)
+    struct Writer(u64);
     impl Writer {
         fn open(key: &str) -> Writer {
-            world::with(|w| *w.open_writers.entry(key.to_string()).or_default() += 1);
-            Writer(key.to_string())
+            Writer(world::with(|w| w.ino_open(key)))
+        }
+        fn dup(&self) -> Writer {
+            world::with(|w| w.ino_dup(self.0));
+            Writer(self.0)
         }
     }
     impl Drop for Writer {
         fn drop(&mut self) {
-            world::try_with(|w| {
-                if let Some(n) = w.open_writers.get_mut(&self.0) {
-                    *n = n.saturating_sub(1);
-                    if *n == 0 {
-                        w.open_writers.remove(&self.0);
-                    }
-                }
-            });
+            world::try_with(|w| w.ino_close(self.0));
         }
     }
 
@@ -1646,6 +1642,10 @@ pub mod simfs {
                 let was_synced = w.synced.contains(&kf);
                 w.touch(&kf);
                 w.touch(&kt);
+                // handles open on the file that `to` named keep that file (now nameless); handles
+                // open on `from` follow it to its new name
+                w.ino_unlink(&kt);
+                w.ino_rename(&kf, &kt);
                 w.written.remove(&kf);
                 w.mtimes.remove(&kf);
                 if w.image.files.contains_key(&kf) {
@@ -1678,6 +1678,7 @@ pub mod simfs {
         if apply {
             world::with(|w| {
                 w.touch(&k);
+                w.ino_unlink(&k);
                 w.written.remove(&k);
                 w.mtimes.remove(&k);
                 w.removed.insert(k.clone());
@@ -1816,6 +1817,15 @@ pub mod simfs {
         pub fn options() -> OpenOptions {
             OpenOptions::new()
         }
+        /// where this handle's content lives now: the file may have been renamed or unlinked since
+        /// it was opened
+        fn cur_key(&self) -> Option<String> {
+            let orig = self.write_key.as_ref()?;
+            Some(match &self._writer {
+                Some(wr) => world::with(|w| w.ino_key(wr.0, orig)),
+                None => orig.clone(),
+            })
+        }
         fn pos(&self) -> usize {
             self.cur.load(std::sync::atomic::Ordering::SeqCst)
         }
@@ -1868,7 +1878,7 @@ pub mod simfs {
             })
         }
         pub fn metadata(&self) -> io::Result<Metadata> {
-            match &self.write_key {
+            match &self.cur_key() {
                 Some(k) => world::with(|w| {
                     Ok(Metadata {
                         is_dir: false,
@@ -1887,7 +1897,7 @@ pub mod simfs {
         }
         /// the file's current content becomes durable: a later power loss cannot take it back
         pub fn sync_all(&self) -> io::Result<()> {
-            if let Some(key) = &self.write_key {
+            if let Some(key) = &self.cur_key() {
                 world::with(|w| {
                     if !w.frozen {
                         w.event("fsync", 0, 0);
@@ -1901,7 +1911,7 @@ pub mod simfs {
             self.sync_all()
         }
         pub fn set_len(&self, n: u64) -> io::Result<()> {
-            if let Some(key) = &self.write_key {
+            if let Some(key) = &self.cur_key() {
                 let (apply, die) = gate_op();
                 if apply {
                     world::with(|w| {
@@ -1918,7 +1928,7 @@ pub mod simfs {
         /// `std::os::unix::fs::FileExt::read_at`: positioned read, may be short or interrupted like
         /// any other read of this stream
         pub fn read_at(&self, buf: &mut [u8], offset: u64) -> io::Result<usize> {
-            let data: Arc<Vec<u8>> = match &self.write_key {
+            let data: Arc<Vec<u8>> = match &self.cur_key() {
                 Some(k) => Arc::new(world::with(|w| w.written.get(k).cloned().unwrap_or_default())),
                 None => self.data.clone(),
             };
@@ -1956,7 +1966,7 @@ pub mod simfs {
         }
         /// `FileExt::write_at`
         pub fn write_at(&self, buf: &[u8], offset: u64) -> io::Result<usize> {
-            let Some(key) = self.write_key.clone() else {
+            let Some(key) = self.cur_key() else {
                 return Err(io::Error::new(io::ErrorKind::PermissionDenied, "file not opened for writing"));
             };
             maybe_intrude();
@@ -1996,7 +2006,7 @@ pub mod simfs {
         pub fn try_clone(&self) -> io::Result<File> {
             Ok(File {
                 _fd: Fd::open()?,
-                _writer: self.write_key.as_deref().map(Writer::open),
+                _writer: self._writer.as_ref().map(|w| w.dup()),
                 data: self.data.clone(),
                 cur: self.cur.clone(),
                 append: self.append,
@@ -2011,7 +2021,7 @@ pub mod simfs {
 
     impl io::Read for File {
         fn read(&mut self, buf: &mut [u8]) -> io::Result<usize> {
-            if let Some(key) = &self.write_key {
+            if let Some(key) = &self.cur_key() {
                 // a handle opened read+write: read what the file holds now
                 let cur = world::with(|w| w.written.get(key).cloned().unwrap_or_default());
                 let pos = self.pos().min(cur.len());
@@ -2050,7 +2060,7 @@ pub mod simfs {
 
     impl io::Write for File {
         fn write(&mut self, buf: &[u8]) -> io::Result<usize> {
-            let Some(key) = self.write_key.clone() else {
+            let Some(key) = self.cur_key() else {
                 return Err(io::Error::new(io::ErrorKind::PermissionDenied, "file not opened for writing"));
             };
             let n = match super::simio::plan_write(&mut self.wrng, &mut self.consecutive_weintr, buf.len()) {
@@ -2097,7 +2107,7 @@ pub mod simfs {
 
     impl io::Seek for File {
         fn seek(&mut self, s: io::SeekFrom) -> io::Result<u64> {
-            if let Some(key) = &self.write_key {
+            if let Some(key) = &self.cur_key() {
                 let len = world::with(|w| w.written.get(key).map(|d| d.len()).unwrap_or(0));
                 let cur = if self.append { len } else { self.pos() };
                 let new = match s {
